@@ -1,1 +1,104 @@
-(* Props/C12.v -- stub, to be filled *)
+(* C12 -- value references and imports resolve exactly like the literals they name.
+   Statements only; model in Front/Resolve.v, proofs in Front/ResolveProofs.v.
+
+   PARTIAL.  What is proved is the lookup level: *whatever* `value_reference` finds for a name -- in the module
+   itself or, through the first import listing the name, in the module of the scope matched by OID equality (when
+   that module has one) or else by name -- a use site resolves exactly like the literal found, for INTEGER range
+   bounds, SIZE bounds (values that are sizes) and DEFAULT values; a name that is not found is
+   FailedToResolveReference, a non-INTEGER value in a range/SIZE is FailedToParseLiteral, and such an error is the
+   result of the enclosing constraint (no substituted bound).  NOT proved: the lifting over the whole AST with an
+   explicit `abstract_refs` (DESIGN.md C12_subst) and the load-order theorem; those are covered by the differential
+   tie (ops 3302/3304) only.
+   Refuted (witnesses below): (0..MAX) folding depends on the 0 being a literal; a negative value used as SIZE wraps;
+   cyclic IMPORTS of an undefined name do not return. *)
+From Coq Require Import String.
+From A1 Require Import Front.Resolve Front.ResolveProofs Extract.OpsParse.
+Local Open Scope N_scope.
+
+Theorem C12_subst_bound_partial : forall scope model name v,
+  value_reference scope (lookup_fuel scope) model name = Found (LInteger v) ->
+  resolve_i64 scope model (Ref name) = resolve_i64 scope model (Lit v).
+Proof. exact subst_i64. Qed.
+
+Theorem C12_subst_size_bound_partial : forall scope model name v,
+  (0 <= v < 18446744073709551616)%Z ->
+  value_reference scope (lookup_fuel scope) model name = Found (LInteger v) ->
+  resolve_usize scope model (Ref name) = resolve_usize scope model (Lit (Z.to_N v)).
+Proof. exact subst_usize. Qed.
+
+Theorem C12_subst_default_partial : forall scope model name l t,
+  value_reference scope (lookup_fuel scope) model name = Found l ->
+  (forall r tg, t <> TRef r tg) ->
+  resolve_default scope model t (Some (Ref name)) = resolve_default scope model t (Some (Lit l)).
+Proof. exact subst_default. Qed.
+
+Theorem C12_unresolved_is_error : forall scope model name,
+  value_reference scope (lookup_fuel scope) model name = NotFound ->
+  resolve_i64 scope model (Ref name) = RErr (FailedToResolveReference name) /\
+  resolve_usize scope model (Ref name) = RErr (FailedToResolveReference name) /\
+  resolve_literal scope model (Ref name) = RErr (FailedToResolveReference name).
+Proof. exact unresolved_i64. Qed.
+
+Theorem C12_non_integer_is_error : forall scope model name l,
+  value_reference scope (lookup_fuel scope) model name = Found l ->
+  (forall v, l <> LInteger v) ->
+  resolve_i64 scope model (Ref name) = RErr (FailedToParseLiteral (name_prefix ++ name)) /\
+  resolve_usize scope model (Ref name) = RErr (FailedToParseLiteral (name_prefix ++ name)).
+Proof. exact non_integer. Qed.
+
+(* ---- witnesses, computed on the whole front-end model (tokenizer, parser, resolver) ---- *)
+
+Definition txt (s : string) : list Z := map Z.of_N (s2n s).
+
+Definition first_def (s : string) : option rty :=
+  match tokenize dev_mode (s2n s) with
+  | Ok ts => match parse ts with
+             | POk u => match resolve_single u with
+                        | ROk r => match m_definitions r with (_, (_, t, _)) :: _ => Some t | [] => None end
+                        | _ => None
+                        end
+             | _ => None
+             end
+  | _ => None
+  end.
+
+(* the literal 0 of (0..MAX) is folded away, the reference to 0 is not: different models *)
+Example C12_refuted_reference_in_0_max_range_not_folded :
+  first_def "M DEFINITIONS ::= BEGIN A ::= INTEGER (0..MAX) zero INTEGER ::= 0 END"
+    = Some (TInteger (None, None, false) []) /\
+  first_def "M DEFINITIONS ::= BEGIN A ::= INTEGER (zero..MAX) zero INTEGER ::= 0 END"
+    = Some (TInteger (Some 0%Z, None, false) []).
+Proof. split; vm_compute; reflexivity. Qed.
+
+(* SIZE(neg) with neg = -1 resolves to SIZE(2^64-1); the literal -1 is rejected *)
+Example C12_refuted_negative_value_reference_as_size_wraps :
+  first_def "M DEFINITIONS ::= BEGIN A ::= OCTET STRING (SIZE(neg)) neg INTEGER ::= -1 END"
+    = Some (TOctetString (SFix 18446744073709551615 false)) /\
+  first_def "M DEFINITIONS ::= BEGIN A ::= OCTET STRING (SIZE(-1)) neg INTEGER ::= -1 END" = None.
+Proof. split; vm_compute; reflexivity. Qed.
+
+(* two modules importing an undefined name from each other: the lookup does not return (process abort, `3 32`) *)
+Example C12_refuted_cyclic_import_diverges :
+  let m1 := txt "M DEFINITIONS ::= BEGIN IMPORTS x FROM N; A ::= INTEGER (0..x) END" in
+  let m2 := txt "N DEFINITIONS ::= BEGIN IMPORTS x FROM M; B ::= BOOLEAN END" in
+  op_3302 dev_mode ([2; Z.of_nat (length m1)] ++ m1 ++ [Z.of_nat (length m2)] ++ m2)%Z = [3; 32]%Z.
+Proof. vm_compute. reflexivity. Qed.
+
+(* non-vacuity of the hypotheses: a reference imported by OID from a sibling that is loaded first *)
+Example C12_nonvacuous :
+  let lib := txt "Lib { iso(1) 5 } DEFINITIONS ::= BEGIN hi INTEGER ::= 9 END" in
+  let m := txt "M DEFINITIONS ::= BEGIN IMPORTS hi FROM Elsewhere { iso(1) 5 }; A ::= INTEGER (0..hi) END" in
+  let ml := txt "M DEFINITIONS ::= BEGIN IMPORTS hi FROM Elsewhere { iso(1) 5 }; A ::= INTEGER (0..9) END" in
+  op_3302 dev_mode ([2; Z.of_nat (length lib)] ++ lib ++ [Z.of_nat (length m)] ++ m)%Z
+  = op_3302 dev_mode ([2; Z.of_nat (length lib)] ++ lib ++ [Z.of_nat (length ml)] ++ ml)%Z
+  /\ hd 1%Z (op_3302 dev_mode ([2; Z.of_nat (length lib)] ++ lib ++ [Z.of_nat (length m)] ++ m)%Z) = 0%Z.
+Proof. split; vm_compute; reflexivity. Qed.
+
+Print Assumptions C12_subst_bound_partial.
+Print Assumptions C12_subst_size_bound_partial.
+Print Assumptions C12_subst_default_partial.
+Print Assumptions C12_unresolved_is_error.
+Print Assumptions C12_non_integer_is_error.
+Print Assumptions C12_refuted_reference_in_0_max_range_not_folded.
+Print Assumptions C12_refuted_negative_value_reference_as_size_wraps.
+Print Assumptions C12_refuted_cyclic_import_diverges.
